@@ -132,6 +132,12 @@ def handle : List String → String
           | .timeTooOld => "timeTooOld" | .timeWarp => "timeWarp" | .assert => "assert" | .panic => "panic"))
       | _, _ => "bad-op"
     | _ => "bad-op"
+  | "adj" :: samples =>
+    match samples.mapM (fun (s : String) => match s.splitOn ":" with
+        | [id, o] => o.toInt?.map (fun o => (id, o))
+        | _ => none) with
+    | some ss => ",".intercalate ((MedianTime.run MedianTime.new ss).map toString)
+    | none => "bad-op"
   | "nextn" :: rest => handleNext rest
   | "mtpn" :: ts => handleMtp ts
   | "next" :: rest => handleNext rest
